@@ -70,7 +70,21 @@ var Table = []func() macaroon.Caveat{
 	},
 }
 
-var Flags = map[uint64][2]bool{3: {true, false}, 4: {true, false}, 9: {true, false}, 5: {false, true}, 10: {false, true}, 16: {false, true}, 17: {false, true}}
+var Flags = map[uint64][2]bool{3: {true, false}, 4: {true, false}, 9: {true, false}, 5: {false, true}, 10: {false, true}, 16: {false, true}, 17: {false, true}, 20: {false, true}}
+
+func init() {
+	// an attestation under 40 nested conditional caveats: "at any nesting depth"
+	Table = append(Table, func() macaroon.Caveat {
+		var c macaroon.Caveat = ptr(auth.FlyioUserID(7))
+		for i := 0; i < 40; i++ {
+			c = &resset.IfPresent{Ifs: macaroon.NewCaveatSet(c), Else: resset.ActionAll}
+		}
+		return c
+	})
+	if len(Table) != 21 {
+		panic("sym.Table: id 20 expected")
+	}
+}
 
 func DOf(id uint64) D { f := Flags[id]; return D{id, f[0], f[1]} }
 
@@ -212,6 +226,8 @@ func (o Op) Coq() string {
 		return coqw.App(o.Kind, n(o.S), n(o.Loc), n(o.K), n(o.Src), n(o.J))
 	case "OMintForTicket":
 		return coqw.App(o.Kind, n(o.Dst), n(o.Src), n(o.J), n(o.K), n(o.Loc), coqw.Bool(o.Proof))
+	case "OCopyVal":
+		return coqw.App(o.Kind, n(o.Dst), n(o.Src))
 	}
 	panic("Op.Coq: " + o.Kind)
 }
@@ -817,6 +833,14 @@ func (e *Env) Step(o Op) []int64 {
 		m.UnsafeCaveats.Caveats = append(m.UnsafeCaveats.Caveats, c)
 		m.Tail = macaroon.VerifSign(m.Tail, encCav(c))
 		e.Slots[o.S] = m
+		return nil
+	case "OCopyVal":
+		m, ok := e.Slots[o.Src]
+		if !ok {
+			return nil
+		}
+		cp := *m // what `for _, t := range []macaroon.Macaroon{...}` or `cp := *m` does: slices (the tail!) are shared
+		e.Slots[o.Dst] = &cp
 		return nil
 	case "OMintForTicket":
 		csrc, oks := ticketOf(e.Slots[o.Src], o.J)
